@@ -114,24 +114,28 @@ Proof.
   induction fuel as [|f IH]; intros unq cur k u s G; cbn [load]; [exact I|].
   pose proof (find_file_post cur k u s G) as F.
   destruct (find_file orc cur k u s) as [p id s1|s1|e s1]; [| |exact F].
-  - assert (B : forall s0, calls s0 = calls s1 -> post (exec_body (load orc content f) p (content id) s0)).
-    { intros s0 E. apply exec_body_post; auto. rewrite E. exact F. }
+  - assert (B : forall kk s0, calls s0 = calls s1 -> post (exec_file content (load orc content f) kk p id s0)).
+    { intros kk s0 E. unfold exec_file.
+      pose proof (exec_body_post _ IH (content id) p (note (EvBody kk p id) s0)) as P.
+      cbn [calls note] in P. rewrite E in P. specialize (P F).
+      destruct (exec_body _ p (content id) _); cbn in P |- *; exact P. }
     destruct k.
-    + pose proof (B (note (EvBody KImport p id) (set_cache [] s1)) eq_refl) as P.
-      destruct (exec_body _ p (content id) _); cbn in P |- *; exact P.
+    + pose proof (B KImport (set_cache [] s1) eq_refl) as P.
+      destruct (exec_file _ _ KImport p id _); cbn in P |- *; exact P.
     + destruct (mem p (cache s1)); [exact F|].
-      pose proof (B (note (EvBody KUse p id) s1) eq_refl) as P.
-      destruct (exec_body _ p (content id) _); cbn in P |- *; exact P.
+      pose proof (B KUse s1 eq_refl) as P.
+      destruct (exec_file _ _ KUse p id _); cbn in P |- *; exact P.
     + destruct (mem p (cache s1)); [exact F|].
-      pose proof (B (note (EvBody KForward p id) s1) eq_refl) as P.
-      destruct (exec_body _ p (content id) _); cbn in P |- *; exact P.
-    + apply B. reflexivity.
+      pose proof (B KForward s1 eq_refl) as P.
+      destruct (exec_file _ _ KForward p id _); cbn in P |- *; exact P.
+    + pose proof (B KLoadCss s1 eq_refl) as P.
+      destruct (exec_file _ _ KLoadCss p id _); cbn in P |- *; exact P.
   - destruct (is_import k && plain_css u unq); cbn; exact F.
 Qed.
 
 Theorem run_post fuel root rootid : post (run orc content fuel root rootid).
 Proof.
-  unfold run.
+  unfold run, exec_file.
   pose proof (exec_body_post _ (load_post fuel) (content rootid) root
                 (note (EvBody KImport root rootid) (st0 root)) I) as P.
   destruct (exec_body _ root (content rootid) _); cbn in P |- *; exact P.
